@@ -114,6 +114,10 @@ type recRunner struct {
 	// (a)
 	br  *wallet.BranchRecoveryState
 	brW uint32
+	// the script so far only used bexpand with one invalid set and bfound on watched indexes: the state is one the
+	// recovery loop can reach, so the counting form of the horizon clause applies
+	brDisc bool
+	brInv  string
 	// (b)
 	env     *wenv
 	seed    int
@@ -162,6 +166,7 @@ func (r *recRunner) Exec(op string) (string, string) {
 	case "bnew":
 		r.brW = uint32(atoi(kv["w"]))
 		r.br = wallet.NewBranchRecoveryState(r.brW)
+		r.brDisc, r.brInv = true, "-"
 		return "ok", ""
 	case "bext", "badd", "binv", "bfound", "bexpand", "bst":
 		if r.br == nil {
@@ -170,15 +175,21 @@ func (r *recRunner) Exec(op string) (string, string) {
 	}
 	switch kind {
 	case "bext":
+		r.brDisc = false
 		h, d := r.br.ExtendHorizon()
 		return fmt.Sprintf("h=%d d=%d", h, d), ""
 	case "badd":
+		r.brDisc = false
 		r.br.AddAddr(uint32(atoi(kv["i"])), dummyAddr)
 		return "ok", ""
 	case "binv":
+		r.brDisc = false
 		r.br.MarkInvalidChild(uint32(atoi(kv["i"])))
 		return "ok", ""
 	case "bfound":
+		if _, ok := r.br.Addrs()[uint32(atoi(kv["i"]))]; !ok {
+			r.brDisc = false
+		}
 		r.br.ReportFound(uint32(atoi(kv["i"])))
 		return "ok", ""
 	case "bst":
@@ -187,6 +198,11 @@ func (r *recRunner) Exec(op string) (string, string) {
 		inv := map[uint32]bool{}
 		for _, s := range core.CSV(kv["inv"]) {
 			inv[uint32(atoi(s))] = true
+		}
+		if r.brInv == "-" {
+			r.brInv = kv["inv"]
+		} else if r.brInv != kv["inv"] {
+			r.brDisc = false
 		}
 		// the loop of expandScopeHorizons, with derivation failure given by `inv`
 		hor, win := r.br.ExtendHorizon()
@@ -208,6 +224,18 @@ func (r *recRunner) Exec(op string) (string, string) {
 			if _, ok := addrs[i]; !ok && !inv[i] && i >= hor {
 				v = fmt.Sprintf("C16 key=branch-horizon: after expansion valid child %d < nextUnfound(%d)+window(%d) is not watched", i, r.br.NextUnfound(), r.brW)
 				break
+			}
+		}
+		if r.brDisc && v == "" {
+			// counting form: at least `window` valid children at or above nextUnfound are watched
+			n := uint32(0)
+			for i := range addrs {
+				if i >= r.br.NextUnfound() {
+					n++
+				}
+			}
+			if n < r.brW {
+				v = fmt.Sprintf("C16 key=branch-horizon-count: after expansion only %d valid children at or above nextUnfound(%d) are watched, window is %d (invalid children must extend the horizon)", n, r.br.NextUnfound(), r.brW)
 			}
 		}
 		return r.branchState(), v
@@ -716,6 +744,41 @@ func (recEngine) Generate(rng *rand.Rand, tier string) []core.Case {
 			ops = append(ops, "bexpand inv="+invs(), "bst")
 		}
 		cases = append(cases, core.Case{Ops: ops, Tags: []string{"branch-api"}})
+	}
+
+	// (a') disciplined scripts: one invalid set, founds only on watched indexes (what the recovery loop does)
+	for i := 0; i < nScripts/50; i++ {
+		var ops []string
+		for k := 0; k < 10; k++ {
+			w := []int{1, 1, 2, 3, 5, 20}[rng.Intn(6)]
+			ops = append(ops, fmt.Sprintf("bnew w=%d", w))
+			invSet := map[int]bool{}
+			for j := 0; j < rng.Intn(5); j++ {
+				invSet[rng.Intn(2*w+6)] = true
+			}
+			var invL []string
+			for x := 0; x < 2*w+6; x++ {
+				if invSet[x] {
+					invL = append(invL, strconv.Itoa(x))
+				}
+			}
+			inv := strings.Join(invL, ",")
+			nu := 0
+			for j := 0; j < 2+rng.Intn(6); j++ {
+				ops = append(ops, "bexpand inv="+inv)
+				// report a watched valid index in [nu, nu+w): pick the next valid ones
+				f := nu + rng.Intn(w)
+				for invSet[f] {
+					f++
+				}
+				ops = append(ops, fmt.Sprintf("bfound i=%d", f))
+				if f >= nu {
+					nu = f + 1
+				}
+			}
+			ops = append(ops, "bexpand inv="+inv, "bst")
+		}
+		cases = append(cases, core.Case{Ops: ops, Tags: []string{"branch-api", "disciplined"}})
 	}
 
 	// (b) full loop
